@@ -52,6 +52,15 @@ def sweep_scenarios(quick, seed):
                     continue
                 out.append({"ttl": ttl, "jump": jump, "later": 3 * ttl + 5 * TICK, "op": op, "sized": k % 2, "syncexec": (k // 2) % 2, "warm": 0,
                             "max": 4 + k % 5})
+    # a write that finds the entry expired, while a reader stores an extended deadline into the node being replaced
+    k = 0
+    for ttl in (3 * TICK, 10 * TICK):
+        for op in ("sia.setifabsent", "sia.set"):
+            for jump in (TICK + 7, 2 * TICK):
+                k += 1
+                if quick and k % 2 != seed % 2:
+                    continue
+                out.append({"ttl": ttl, "jump": jump, "later": 3 * ttl + 5 * TICK, "op": op, "sized": 1, "syncexec": (k // 2) % 2, "warm": 0, "max": 4 + k % 5})
     return out
 
 
@@ -94,6 +103,8 @@ def read_race_half(prop, tier, mc_out=None):
     seed = vlib.seed()
     if prop == "C06":
         scs = [sc for sc in sweep_scenarios(False, seed) if sc["op"].startswith("gate.")]
+    elif prop == "C05":
+        scs = [sc for sc in sweep_scenarios(False, seed) if sc["op"].startswith("sia.")]
     else:
         scs = [sc for sc in sweep_scenarios(False, seed) if sc["op"].startswith("read.")]
         if tier == "quick":
@@ -252,7 +263,7 @@ def run(prop, tier, replay=None):
                     total = sc["jump"] + sc["later"]
                     r["mustsweep"] = 1 if (total - sc["ttl"] > TICK and sc["later"] > TICK) else 0
                     r["deadlinepassed"] = 1 if sc["ttl"] <= total else 0
-                    if sc["op"].startswith(("read.", "gate.")):
+                    if sc["op"].startswith(("read.", "gate.", "sia.")):
                         # the extended deadline is at most (ttl - 1000) + ttl after the write; later = 3 ttl + 5 ticks lies beyond it
                         r["mustsweep"], r["deadlinepassed"] = 1, 1
                     r["sc"] = {"ttl": str(sc["ttl"]), "jump": str(sc["jump"]), "later": str(sc["later"]), "op": sc["op"], "sized": sc["sized"],
@@ -311,7 +322,7 @@ def run(prop, tier, replay=None):
             cov["samples"].append({"race": recs[0][0]})
         for x in d["devs"]:
             if not x["pred"].startswith(("C13.", "C04.")):
-                continue     # C06.* of the gated read races: reported by C06's check
+                continue     # C06.* of the gated read races, C05.* of the write races: reported by those checks
             cov["predicates_failed"][x["pred"]] = cov["predicates_failed"].get(x["pred"], 0) + 1
             sc = recs[x["rec"] - 1][1]
             path = vlib.save_replay(prop, "race-%s-%d" % (sc["op"], x["rec"]), sc)
